@@ -79,7 +79,7 @@ TRANSPARENT_CALLS = {"from_real", "from_subset", "convert", "from", "to_subset_u
 MATH_METHODS = {
     "abs": sp.Abs, "modulus": sp.Abs, "sqrt": sp.sqrt, "exp": sp.exp, "ln": sp.log, "sin": sp.sin, "cos": sp.cos,
     "tan": sp.tan, "tanh": sp.tanh, "sinh": sp.sinh, "cosh": sp.cosh, "recip": lambda x: 1 / x,
-    "conjugate": sp.conjugate, "imaginary": sp.im,
+    "conjugate": sp.conjugate, "imaginary": sp.im, "signum": sp.sign, "ceil": sp.ceiling, "floor": sp.floor,
 }
 CONSTS = {"PI": sp.pi, "FRAC_PI_2": sp.pi / 2, "FRAC_1_SQRT_2": 1 / sp.sqrt(2), "E": sp.E, "SQRT_2": sp.sqrt(2),
           "FRAC_PI_4": sp.pi / 4, "TAU": 2 * sp.pi}
